@@ -11,10 +11,30 @@ macro "x64_simp" : tactic => `(tactic|
     WrapRow, ExtSRow, ExtURow, SelectRow32, SelectRow64, Illformed,
     Outcome32, Outcome64, Preserved, lo32, X64.run, X64.step, sameWidth, width, X64.read, write, writeReg, writeSlot, setSlot, setReg, getReg,
     trunc, aluW, aluN, shW, shN, cntW, ccHolds, subFlags, addFlags, logicFlags,
-    Wasm.binop, Wasm.relop, Wasm.unop, Wasm.b2i, Option.bind, Option.map])
+    Wasm.binop, Wasm.relop, Wasm.unop, Wasm.b2i, Option.bind, Option.map, divN_zero_hi, idivN_cdq, idivN_cqo])
 
 macro "row_start" : tactic => `(tactic|
   (intro s
    obtain ⟨rax, rcx, rdx, rbx, rsi, rdi, r8, r9, r10, r11, r12, r13, r14, r15, flags, slots, stk⟩ := s))
+
+/-- frame condition / residual bit-vector identities after symbolic execution -/
+macro "x64_finish" : tactic => `(tactic|
+  all_goals ((repeat' apply And.intro) <;> first
+    | done
+    | (intro k h1 h2; exact absurd h2 h1)
+    | rfl
+    | bv_decide
+    | (intros; bv_decide)
+    | (simp_all; done)
+    | (simp_all; bv_decide)))
+
+theorem illformed_not_un64 {t : Template} (k : Wasm.UnK) (h : Illformed t) : ¬ UnRow64 k t := by
+  intro hu
+  have h1 := hu (witnessState t 0 0)
+  have h2 := h (witnessState t 0 0)
+  simp only [Outcome64] at h1
+  obtain ⟨s', hs, _⟩ := h1
+  rw [h2] at hs
+  cases hs
 
 end WaVerif.C02
